@@ -33,10 +33,10 @@ def run(prop, tier, seed, replay=None):
     else:
         cases = [(replay["case"], replay["case_seed"])]
     recs = common.pmap(migrate.run_case, cases)
-    traces = [[r] for r in recs]
+    traces = [list(t) for t in recs]
     ncan = 0
     if replay is None:
-        for r in recs:
+        for r in [t[0] for t in recs]:
             if r["has_legacy"] and r["new"] and r["new"][0]["evs"] and ncan < 3:
                 bad = copy.deepcopy(r)
                 bad["new"][0]["evs"].pop()
@@ -50,17 +50,18 @@ def run(prop, tier, seed, replay=None):
             raise tlc.TLCFailure("canary (an event missing from the new store) accepted by the judge")
     rep.notes["canaries_rejected"] = ncan
     rep.cov.update(traces_validated_against_impl=nreal, evaluations=nreal,
-                   distinct_nontrivial=len({repr(c[0]) for c, r in zip(cases, recs) if r["has_legacy"] and r["legacy"]}),
+                   distinct_nontrivial=len({repr(c[0]) for c, r in zip(cases, recs) if r[0]["has_legacy"] and r[0]["legacy"]}),
                    rule="random legacy contents (0..3 buckets incl. unicode ids, metadata with and without name / data dict, 0..130 events with random instants/durations/nested data, duplicates, deletions leaving id gaps), "
-                        "both profiles, with and without a legacy file, with a legacy file of the other profile present; each case in a forked child with a private XDG_DATA_HOME; non-trivial = legacy file with at least one bucket")
-    rep.notes["events_migrated"] = sum(len(b["evs"]) for r in recs for b in r["legacy"])
-    rep.sample({k: (v if k not in ("legacy", "new") else [dict(b, evs=b["evs"][:3]) for b in v[:2]]) for k, v in recs[0].items()})
+                        "both profiles, with and without a legacy file, with a legacy file of the other profile present (then the same process first-opens the other profile's store as well: second record); legacy stores written by processes of their own; each case in a forked child with a private XDG_DATA_HOME; non-trivial = legacy file with at least one bucket")
+    rep.notes["events_migrated"] = sum(len(b["evs"]) for t in recs for r in t for b in r["legacy"])
+    rep.notes["first_opens_judged"] = sum(len(t) for t in recs)
+    rep.sample({k: (v if k not in ("legacy", "new") else [dict(b, evs=b["evs"][:3]) for b in v[:2]]) for k, v in recs[0][0].items()})
     for i in sorted(rej):
         if i >= nreal:
             continue
         info = rej[i][0]
         clause = info["clauses"].strip('"')
-        r = recs[i]
+        r = recs[i][(info["l"] or 1) - 1]
         rep.violation(dict(profile=r["profile"], clause=clause), "%s profile: %s (legacy %d buckets / %d events, new %d buckets / %d events)" % (
             r["profile"], clause, len(r["legacy"]), sum(len(b["evs"]) for b in r["legacy"]), len(r["new"]), sum(len(b["evs"]) for b in r["new"])),
                       dict(case=cases[i][0], case_seed=cases[i][1], clause=clause))
